@@ -338,6 +338,10 @@ nni_http_res_parse(nng_http *conn, void *buf, size_t n, size_t *lenp)
 		n -= cnt;
 
 		if (*line == '\0') {
+			if (!res->data.parsed) {
+				// a response must start with a status line
+				rv = NNG_EPROTO;
+			}
 			break;
 		}
 
